@@ -25,10 +25,15 @@ Fixpoint gen_run (st : Z) (clocks : list Z) : list Z :=
 (* NewMessageIDGen: nano = 0 *)
 Definition gen_init : Z := 0.
 
-(* ---- the library's id -> time decoding, MessageID.Time(): time.Unix(sec, nsec) with both
-        parts regenerated from the source (Gen/MsgIdGen.v), as unix nanoseconds.  Since fix
-        ad4102cfc the low word is read as a binary fraction of a second. ---- *)
+(* ---- the creation time used by the acceptance window: mtproto.messageIDCreated (read.go),
+        time.Unix(sec, nsec) with both parts regenerated from the source (Gen/MsgIdGen.v), as
+        unix nanoseconds.  It reads the low word as a binary fraction of a second (fixes
+        ad4102cfc + bf52a6466). ---- *)
 Definition id_time_lib (id : Z) : Z := id_time_sec_go id * 1000000000 + id_time_nsec_go id.
+
+(* proto.MessageID.Time(), used only for display (String, log lines): low word read as int32
+   NANOSECONDS; also regenerated from the source. *)
+Definition id_time_display (id : Z) : Z := msgid_time_sec_go id * 1000000000 + msgid_time_nsec_go id.
 
 (* the specification's reading of an id: unixtime * 2^32, i.e. id / 2^32 seconds as a
    rational.  To stay in Z it is kept scaled: (spec nanoseconds) * 2^32. *)
